@@ -118,8 +118,18 @@ def ret_forwards(path, res):
 def check_arm(chk, rule, dname, key, leaf, kind, field_term):
     for_len = kind == "len"
     kname = "%s:%s" % (dname, fmt_key(key))
+    if leaf["kind"] != "code" and for_len and leaf.get("body") is not None:
+        kc = key_class(key, for_len)
+        if kc[1] != "P":
+            import rules_ivl
+            okv, why = rules_ivl.semantic_len(leaf["facts"], leaf["body"], leaf["is_closure"], kc[0], kc[1])
+            if okv is not None:
+                chk.expect(rule, kname, okv, "dispatcher %s, arm %s: the length expression is not the length of %s: %s" % (dname, fmt_key(key), kc, why),
+                           detail={"dispatcher": dname, "arm": fmt_key(key), "expected_class": kc, "why": why},
+                           sample={"arm": fmt_key(key), "class": kc, "call": "whole-domain comparison: " + why})
+                return kc if okv else None
     if leaf["kind"] != "code":
-        chk.bad(rule, kname, "dispatcher %s arm %s: %s" % (dname, fmt_key(key), leaf.get("why")), leaf)
+        chk.bad(rule, kname, "dispatcher %s arm %s: %s" % (dname, fmt_key(key), leaf.get("why")), {k: v for k, v in leaf.items() if k not in ("body", "facts")})
         return None
     kc = key_class(key, for_len)
     lp = leaf["param"]
@@ -250,7 +260,12 @@ def resolve_fn_value(F, t, kind):
         clo = F.body(r[2])
         stream_i, value_i = (2, None) if kind == "read" else (2, 3) if kind == "write" else (None, 2)
     elif isinstance(r, tuple) and r[0] == "fnitem":
-        return cpath, {"kind": "unknown", "why": "initialiser is a function item %s (not modelled)" % r[1]}
+        # a named function instead of a closure: same analysis, parameters start at 1 (no closure environment)
+        try:
+            clo = F.body(r[1])
+        except FactsError as e:
+            return cpath, {"kind": "unknown", "why": "initialiser is the function item %s whose body is not available (%s)" % (r[1], e)}
+        stream_i, value_i = (1, None) if kind == "read" else (1, 2) if kind == "write" else (None, 1)
     else:
         return cpath, {"kind": "unknown", "why": "initialiser of %s is %s" % (cpath, mir.fmt(r))}
     cps = [p for p in mir.walk(clo) if p.end[0] == "return"]
@@ -258,6 +273,9 @@ def resolve_fn_value(F, t, kind):
         return cpath, {"kind": "unknown", "why": "closure of %s has %d returning paths" % (cpath, len(cps))}
     p = cps[0]
     leaf = leaf_from_events(p, kind, stream_i, value_i)
+    if leaf["kind"] == "unknown" and kind == "len":
+        # not a call of a known length function: leave it to the whole-domain comparison in check_arm
+        leaf = dict(leaf, body=clo, is_closure=(r[0] == "agg"), facts=F)
     if leaf["kind"] == "code" and leaf.get("ret") is not None and not ret_forwards(p, leaf["ret"]):
         leaf = dict(leaf, args_ok=False, why=["closure result is not the operation's result"])
     return cpath, leaf
